@@ -220,13 +220,13 @@ def src_id(source):
 
 
 def determinism_search(ctx, sources, configs, seeds, workers=16):
-    """sources: [(label, text)].  Returns {(srcid, 'arch:Olevel'): set of (objhash, imghash)}."""
+    """sources: [(label, text)]; seeds: [(PYTHONHASHSEED, variant)].
+    Returns {(label, srcid, 'arch:Olevel'): {(objhash, imghash): [seed/variant, ...]}}."""
     from harness import common
     jobs = []
     for label, text in sources:
-        for hs in seeds:
-            for variant in ("fresh", "after-unrelated"):
-                jobs.append((label, text, hs, variant))
+        for hs, variant in seeds:
+            jobs.append((label, text, hs, variant))
     results = {}
     with ThreadPoolExecutor(max_workers=workers) as ex:
         futs = [(j, ex.submit(run_worker, common.REPO, {"source": j[1], "configs": configs, "variant": j[3], "unrelated": UNRELATED}, j[2])) for j in jobs]
@@ -355,9 +355,30 @@ def check_orderedset(ctx):
         reqs.append("hist " + " ".join(ops) + " ? " + fmt_list(q))
         reqs.append("spec " + " ".join(ops))
     out = ctx.driver("C30", reqs)
+    import signal
+
+    class Hang(Exception):
+        pass
+
+    def on_alarm(signum, frame):
+        raise Hang()
+
+    old_handler = signal.signal(signal.SIGALRM, on_alarm)
+    hangs = 0
     for k, (ops, q) in enumerate(hists):
-        real_line, states = run_real(ops, q)
         m, sp = out[2 * k], out[2 * k + 1]
+        if hangs >= 3:          # a corrupted list makes every further history spin: enough evidence
+            break
+        signal.setitimer(signal.ITIMER_REAL, 5.0)
+        try:
+            real_line, states = run_real(ops, q)
+        except Hang:
+            hangs += 1
+            ctx.fail("orderedset:does-not-terminate", f"history {' '.join(ops)} ? {q}: the real OrderedSet did not finish within 5 s "
+                     "(the model proves iteration terminates for every history)", ops)
+            continue
+        finally:
+            signal.setitimer(signal.ITIMER_REAL, 0)
         ctx.count("eval_history")
         ctx.count("eval_ops", len(ops))
         if m != "ok " + real_line:
@@ -382,7 +403,8 @@ def check_orderedset(ctx):
             keyerr |= raised
         if keyerr or any(o[0] in "dr-&^pc" for o in ops) and any(o[0] in "a|i" for o in ops[1:]):
             ctx.nontrivial(("hist", " ".join(ops)))
-    ctx.sample({"request": reqs[2], "real": run_real(*hists[1])[0], "model": out[2], "spec": out[3]})
+    signal.signal(signal.SIGALRM, old_handler)
+    ctx.sample({"request": reqs[2], "model": out[2], "spec": out[3]})
 
 
 # --------------------------------------------------------------------------------------
@@ -397,9 +419,13 @@ def check(ctx):
 
     # ---- failing-input search for process-level determinism (NOT part of the proof) ----
     rng = ctx.rng
-    sources = list(FIXED_SOURCES) + [(f"gen{i}", gen_source(rng)) for i in range(24 if ctx.thorough else 2)]
+    fixed = FIXED_SOURCES if ctx.thorough else FIXED_SOURCES[:3]
+    sources = list(fixed) + [(f"gen{i}", gen_source(rng)) for i in range(24 if ctx.thorough else 1)]
     configs = THOROUGH_CONFIGS if ctx.thorough else QUICK_CONFIGS
-    seeds = list(range(8)) if ctx.thorough else [0, 1, 2, 3]
+    if ctx.thorough:
+        seeds = [(hs, v) for hs in range(8) for v in ("fresh", "after-unrelated")]
+    else:   # 5 processes per source: two seeds fresh, the first seed again after other work, two more seeds
+        seeds = [(0, "fresh"), (1, "fresh"), (0, "after-unrelated"), (2, "after-unrelated"), (3, "fresh")]
     res = determinism_search(ctx, sources, configs, seeds)
     texts = dict(sources)
     compiled = 0
@@ -417,12 +443,13 @@ def check(ctx):
             objs = {h[0] for h in hv}
             what = "object files" if len(objs) > 1 else "linked images"
             ctx.fail(f"nondet:{sid}:{key}", f"{label} ({sid}) for {key}: {len(hv)} different {what} over PYTHONHASHSEED/process variants "
-                     f"{ {h[0][:8]: v[:3] for h, v in variants.items()} }", {"source": texts[label], "config": key, "seeds": seeds})
+                     f"{ {h[0][:8]: v[:3] for h, v in variants.items()} }", {"source": texts[label], "config": key, "processes": [f"{hs}/{v}" for hs, v in seeds]})
     ctx.extra_cov["exhaustive"] = False
     ctx.extra_cov["determinism_search"] = {
         "role": "failing-input search only; a clean search is not evidence of determinism",
         "sources": [f"{l}:{src_id(t)}" for l, t in sources], "configs": [f"{a}:O{o}" for a, o in configs],
-        "hash_seeds": seeds, "variants": ["fresh", "after-unrelated (unrelated module first, configurations reversed)"],
+        "processes_per_source": [f"PYTHONHASHSEED={hs}/{v}" for hs, v in seeds],
+        "variants": {"fresh": "target compiled first in a new process", "after-unrelated": "an unrelated module is compiled first and the configurations are taken in reverse order"},
         "triples_compiled": compiled, "triples_total": len(res),
     }
     ctx.sample({"determinism_triples_compiled": compiled, "of": len(res), "seeds": seeds})
